@@ -3,34 +3,99 @@ package main
 import (
 	"flag"
 	"fmt"
+	"golang.org/x/tools/go/ssa"
 	"os"
+	"path/filepath"
+	"strconv"
 	"strings"
 )
 
+var checks = map[string]func(*Checker){
+	"C01": checkC01,
+	"C02": checkC02,
+	"C04": checkC04,
+	"C13": checkC13,
+	"C14": checkC14,
+}
+
+// thoroughArch lists the properties whose thorough tier adds the 386 configuration.
+var thoroughArch = map[string]bool{"C13": true}
+
 func main() {
 	prop := flag.String("prop", "", "property id")
-	tier := flag.String("tier", "quick", "quick|thorough")
-	dump := flag.String("dump", "", "dump summaries of functions whose name contains this string")
+	tier := flag.String("tier", "", "quick|thorough")
+	dump := flag.String("dump", "", "dump the summary of the function with this short name")
+	arch := flag.String("arch", "amd64", "GOARCH for -dump")
 	flag.Parse()
-	_ = prop
-	_ = tier
 	dir := os.Getenv("VERIF_REPO")
 	if dir == "" {
 		dir = "/repo"
 	}
-	w, err := loadWorld(dir, "amd64")
-	if err != nil {
-		fmt.Println("LOAD ERROR:", err)
-		os.Exit(2)
+	verifDir := os.Getenv("VERIF_DIR")
+	if verifDir == "" {
+		exe, _ := os.Executable()
+		verifDir = filepath.Dir(filepath.Dir(exe))
 	}
+	if *tier == "" {
+		*tier = os.Getenv("VERIF_TIER")
+	}
+	if *tier == "" {
+		*tier = "quick"
+	}
+	seed, _ := strconv.Atoi(os.Getenv("VERIF_SEED"))
 	if *dump != "" {
+		w, err := loadWorld(dir, *arch)
+		if err != nil {
+			fmt.Println("LOAD ERROR:", err)
+			os.Exit(2)
+		}
 		for _, fn := range w.sortedFuncs() {
 			if strings.ReplaceAll(fn.String(), w.Pkg.PkgPath+".", "") != *dump {
 				continue
 			}
 			dumpSummary(w, w.Interp.Run(fn))
 		}
+		return
 	}
+	f, ok := checks[*prop]
+	if !ok {
+		fmt.Println("unknown property", *prop)
+		os.Exit(2)
+	}
+	c := newChecker(*prop, *tier, seed, verifDir)
+	code := runCheck(c, f, dir)
+	os.Exit(code)
+}
+
+func runCheck(c *Checker, f func(*Checker), dir string) (code int) {
+	defer func() {
+		if r := recover(); r != nil {
+			// a panic in the checker fails the check, never passes it
+			c.W = nil
+			c.undecided(c.Prop+"-internal", "checker", "", fmt.Sprint("checker panic: ", r))
+			code = c.finish()
+			if code == 0 {
+				code = 1
+			}
+		}
+	}()
+	archs := []string{"amd64"}
+	if c.Tier == "thorough" && thoroughArch[c.Prop] {
+		archs = append(archs, "386")
+	}
+	for _, a := range archs {
+		w, err := loadWorld(dir, a)
+		if err != nil {
+			c.W = nil
+			c.undecided(c.Prop+"-load", "load/"+a, "", "cannot load and type-check the repository: "+err.Error())
+			continue
+		}
+		c.W = w
+		c.sums = nil
+		c.sums = map[*ssa.Function]*Summary{}
+		f(c)
+	}
+	return c.finish()
 }
 
 func dumpSummary(w *World, s *Summary) {
